@@ -88,6 +88,7 @@ type Plan struct {
 	Partial int    `json:"partial,omitempty"`  // bytes written before closing (fault partial)
 	DelayMs int    `json:"delay_ms,omitempty"` // delay before replying
 	// BulkLen > 0: the reply is a bulk string of this length made by repeating BulkSeed (keeps case files small)
+	SplitAt  int `json:"split_at,omitempty"` // the reply is written in two pieces, the first this long
 	BulkLen  int `json:"bulk_len,omitempty"`
 	BulkSeed Bin `json:"bulk_seed,omitempty"`
 }
@@ -434,6 +435,9 @@ func (pi *planIndex) handler(gates *gateSet) fakecluster.Handler {
 		}
 		if p.DelayMs > 0 {
 			a.Delay = time.Duration(p.DelayMs) * time.Millisecond
+		}
+		if p.SplitAt > 0 {
+			a.SplitAt = p.SplitAt
 		}
 		if p.Hold {
 			a.Gate = gates.add(req.Seq)
